@@ -9,9 +9,19 @@ if "entry" not in w or "vec" not in w:
     print(json.dumps(w, indent=1)[:4000])
     print("(E1/E3 witness: see the lemma named above; the check re-derives and replays it on every run)")
     sys.exit(0)
+if w.get("kind") == "ub" or w.get("abstract_witness"):
+    print(json.dumps({k: w[k] for k in ("lemma", "kind", "msg", "abstract_witness") if k in w}, indent=1))
+    print("(reported from the encoding: a contract precondition of an assembly routine broken by its Go caller, or a witness over uninterpreted "
+          "helper functions; not observable in a native run — re-run the lemma with ./check <property> --only <lemma>)")
+    sys.exit(0)
 files = e2run.harness_files([f for f in w["files"] if f not in ("zz_verif_api.go", "zz_verif_f64.go")])
+scaled = None
+if w.get("scale"):
+    prog, _ = e2run.lower(files, [w["entry"]], scale=w["scale"])      # same constant rewriting as in the encoding
+    scaled = getattr(prog, "scaled_files", None)
 v = {"entry": w["entry"], "replay": [(n, x) for n, x in zip(w.get("names", [None] * len(w["vec"])), w["vec"])], "kind": w["kind"], "msg": w.get("msg", "")}
-ok, line = e2run.replay(files, v, patches=("memhash",) if "zz_verif_ser.go" in w["files"] else ())
+patches = tuple(w.get("patches") or (("memhash",) if "zz_verif_ser.go" in w["files"] else ()))
+ok, line = e2run.replay(files, v, patches=patches, scaled_files=scaled)
 print(line)
-print("reproduced" if ok else "NOT reproduced (constant scaling of the lemma is not applied by this tool)")
+print("reproduced" if ok else "NOT reproduced")
 sys.exit(0 if ok else 1)
